@@ -74,7 +74,7 @@ func (c *Cursor) Last() (key []byte, value []byte) {
 
 	// If this is an empty page (calling Delete may result in empty pages)
 	// we call prev to find the last page that is not empty
-	for len(c.stack) > 1 && c.stack[len(c.stack)-1].count() == 0 {
+	if len(c.stack) > 1 && c.stack[len(c.stack)-1].count() == 0 {
 		c.prev()
 	}
 
@@ -213,6 +213,9 @@ func (c *Cursor) last() {
 // next moves to the next leaf element and returns the key and value.
 // If the cursor is at the last leaf element then it stays there and returns nil.
 func (c *Cursor) next() (key []byte, value []byte, flags uint32) {
+	// The position before leaving the current leaf page. It is restored if only
+	// empty pages follow, so that the cursor stays on the last element.
+	var saved []elemRef
 	for {
 		// Attempt to move over one element until we're successful.
 		// Move up the stack as we hit the end of each page in our stack.
@@ -220,6 +223,9 @@ func (c *Cursor) next() (key []byte, value []byte, flags uint32) {
 		for i = len(c.stack) - 1; i >= 0; i-- {
 			elem := &c.stack[i]
 			if elem.index < elem.count()-1 {
+				if saved == nil && i < len(c.stack)-1 {
+					saved = append(saved, c.stack...)
+				}
 				elem.index++
 				break
 			}
@@ -228,6 +234,9 @@ func (c *Cursor) next() (key []byte, value []byte, flags uint32) {
 		// If we've hit the root page then stop and return. This will leave the
 		// cursor on the last element of the last page.
 		if i == -1 {
+			if saved != nil {
+				c.stack = saved
+			}
 			return nil, nil, 0
 		}
 
@@ -249,34 +258,43 @@ func (c *Cursor) next() (key []byte, value []byte, flags uint32) {
 // prev moves the cursor to the previous item in the bucket and returns its key and value.
 // If the cursor is at the beginning of the bucket then a nil key and value are returned.
 func (c *Cursor) prev() (key []byte, value []byte, flags uint32) {
-	// Attempt to move back one element until we're successful.
-	// Move up the stack as we hit the beginning of each page in our stack.
-	for i := len(c.stack) - 1; i >= 0; i-- {
-		elem := &c.stack[i]
-		if elem.index > 0 {
-			elem.index--
-			break
+	if len(c.stack) == 0 {
+		return nil, nil, 0
+	}
+	for {
+		// Attempt to move back one element until we're successful.
+		// Move up the stack as we hit the beginning of each page in our stack.
+		var i int
+		for i = len(c.stack) - 1; i >= 0; i-- {
+			elem := &c.stack[i]
+			if elem.index > 0 {
+				elem.index--
+				break
+			}
 		}
+
 		// If we've hit the beginning, we should stop moving the cursor,
 		// and stay at the first element, so that users can continue to
 		// iterate over the elements in reverse direction by calling `Next`.
 		// We should return nil in such case.
 		// Refer to https://github.com/etcd-io/bbolt/issues/733
-		if len(c.stack) == 1 {
+		if i == -1 {
 			c.first()
 			return nil, nil, 0
 		}
-		c.stack = c.stack[:i]
-	}
 
-	// If we've hit the end then return nil.
-	if len(c.stack) == 0 {
-		return nil, nil, 0
-	}
+		// Move down the stack to find the last element of the last leaf under this branch.
+		c.stack = c.stack[:i+1]
+		c.last()
 
-	// Move down the stack to find the last element of the last leaf under this branch.
-	c.last()
-	return c.keyValue()
+		// If this is an empty page (calling Delete may result in empty pages)
+		// then restart and move back up the stack.
+		if c.stack[len(c.stack)-1].count() == 0 {
+			continue
+		}
+
+		return c.keyValue()
+	}
 }
 
 // search recursively performs a binary search against a given page/node until it finds a given key.
